@@ -102,6 +102,9 @@ RULE = ("mu in 10^U(-6,5) plus decimal/integer boundary means; n in {0,1,2, floo
         "off); monotonicity on sorted grids of means for fixed n, and on pairs (mean1, var1), (mean2, var2) drawn from the "
         "whole region the NBD theorem allows; scale_to_test_date entries (before / on the start, inside, leap day, last day, "
         "last second, on / after the end) in the scale histories; epsilon arguments 1e-12..1-2^-53 for the float64 floor; "
+        "in half of the scale-history cases the caller modifies in place every array the public API returned (data, "
+        "spatial_counts, magnitude_counts, sum, what the result holds; zero / x3 / fill / normalise) after every tested step and "
+        "tests again (bit-equal results required); rate array and catalog rows compared with their snapshots afterwards; "
         "(mean, var) of every dispersion (one ulp above the mean .. 2^58 x mean) for the float64 probability parameter. "
         "A case is non-trivial when n >= 1 and P(N = n) > 1e-12 (the inclusive/exclusive tail convention is visible), or "
         "for the catalog test when some synthetic size equals n_obs; distinct by (kind, mean, variance, n) / (sizes, n_obs)")
@@ -639,6 +642,8 @@ def _catalog_case(run, drv, pending, rng, tier, sizes=None, nobs=None, extras=No
         with contextlib.redirect_stdout(io.StringIO()):
             res = ce.number_test(fc, obs, **kw)
         d1, d2 = res.quantile
+        res_live, res = res, _Frozen(res)
+        _poke_result_list(run, res_live, POKES[(sum(case["sizes"]) + case["nobs"]) % 4])   # the caller edits what it got
         res2 = ce.number_test(fc, obs, verbose=False)   # a second pass over the same forecast
         run.count("catalog:verbose=" + ["off", "on", "default"][mode])
     except Exception as e:
@@ -922,6 +927,13 @@ def _catalog_seq_case(run, drv, pending, case):
                     for j, c in enumerate(held):
                         mutate(j, c)
             res = ce.number_test(fc, obs, verbose=False)
+            res_live, res = res, _Frozen(res)
+            _poke_result_list(run, res_live, POKES[(sum(case["sizes"]) + int(nobs)) % 4])
+            try:
+                _poke_result_list(run, type("R", (), dict(test_distribution=fc.get_event_counts(verbose=False)))(),
+                                  "zero") if case["obs_pick"] % 2 else None
+            except Exception:
+                pass
             res2 = ce.number_test(fc, obs, verbose=False)
     except Exception as e:
         run.oracle_failure(case, f"exception {type(e).__name__}: {e}")
@@ -1020,7 +1032,9 @@ def _gen_hist(rng):
                 obs_filter=[rng.randint(0, 2), rng.choice([4.5, 4.25, 4.0, 3.7]), rng.choice(["inplace", "copy"])]
                 if rng.random() < 0.35 else None,
                 # an observed catalog without events, built without a data array
-                empty=rng.choice(["noarg", "list", "none"]) if rng.random() < 0.06 else None, tag="public-hist")
+                empty=rng.choice(["noarg", "list", "none"]) if rng.random() < 0.06 else None,
+                # the caller modifies in place what the public API returned, after every tested step
+                alias=rng.choice(POKES) if rng.random() < 0.5 else None, tag="public-hist")
 
 
 def _hist_forecast(case, reg):
@@ -1082,6 +1096,66 @@ def _as_var(var, vtype, mu=None):
     return float(var)
 
 
+POKES = ["zero", "scale", "normalise", "fill"]
+
+
+def _poke(obj, mode):
+    """what a caller may do with an array a public call RETURNED to it: change it in place (returns True if it did)"""
+    if not isinstance(obj, numpy.ndarray) or obj.size == 0:
+        return False
+    try:
+        if mode == "zero":
+            obj[...] = 0
+        elif mode == "scale":
+            obj *= 3
+        elif mode == "fill":
+            obj[...] = 7
+        else:
+            obj /= obj.sum()
+        return True
+    except (TypeError, ValueError):        # integer array and true division, read-only view: nothing was changed
+        return False
+
+
+def _poke_returned(run, f, res, mode):
+    """every array the public API of a gridded forecast / a result hands out, modified in place by the caller"""
+    k = 0
+    for name, get in (("data", lambda: f.data), ("spatial_counts", lambda: f.spatial_counts()),
+                      ("magnitude_counts", lambda: f.magnitude_counts()), ("sum", lambda: f.sum()),
+                      ("test_distribution", lambda: getattr(res, "test_distribution", None)),
+                      ("quantile", lambda: getattr(res, "quantile", None))):
+        try:
+            obj = get()
+        except Exception:
+            continue
+        for o in (obj if isinstance(obj, (tuple, list)) else [obj]):
+            if _poke(o, mode):
+                k += 1
+                run.count("alias:returned-array-modified:" + name)
+    return k
+
+
+class _Frozen:
+    """the observables of a result, copied before the caller modifies what the result holds"""
+
+    def __init__(self, res):
+        self.quantile = tuple(res.quantile)
+        self.observed_statistic = res.observed_statistic
+        self.test_distribution = [int(v) for v in res.test_distribution]
+
+
+def _poke_result_list(run, res, mode):
+    td = getattr(res, "test_distribution", None)
+    try:
+        if isinstance(td, list) and td:
+            td[:] = [0] * len(td) if mode in ("zero", "normalise") else [3 * int(v) + 1 for v in td]
+            run.count("alias:returned-list-modified:test_distribution")
+        elif _poke(td, mode):
+            run.count("alias:returned-array-modified:test_distribution")
+    except Exception:
+        pass
+
+
 def _hist_case(run, drv, pending, case):
     from csep.core import poisson_evaluations as pe, binomial_evaluations as be
     reg = _region(*case["dims"])
@@ -1092,6 +1166,10 @@ def _hist_case(run, drv, pending, case):
     n = case["n_in"] + (sum(extras) if extras else 0)
     cat = _catalog(case["n_in"], reg, case["cat_seed"], extras)
     cat_mags = numpy.array(cat.get_magnitudes(), dtype=float)      # bookkeeping of the harness, taken before any test
+    try:
+        cat_bytes = cat.catalog.tobytes()
+    except Exception:
+        cat_bytes = None
     if case.get("empty"):
         from csep.core.catalogs import CSEPCatalog
         cat = {"noarg": lambda: CSEPCatalog(), "list": lambda: CSEPCatalog(data=[]),
@@ -1194,8 +1272,31 @@ def _hist_case(run, drv, pending, case):
             pending.append(("pois", c, i, None, d1, d2, n))
         run.case(c, (c["kind"], mu_ref, var, n, step, case["layout"]) if (n >= 1 and pmf > 1e-12) else None)
         run.count(f"hist:{case['layout']}:step{min(step, 3)}" + (":nbd" if nbd else ""))
+        if case.get("alias"):
+            # ALIASING OF RETURNED OBJECTS: the caller works in place on the arrays the public API handed out (data,
+            # spatial_counts(), magnitude_counts(), what the result holds); the forecast must stay the one that was built
+            try:
+                _poke_returned(run, f, res, case["alias"])
+                res_b = be.negative_binomial_number_test(f, cat, _as_var(var, case["vtype"], mu_ref)) if nbd else pe.number_test(f, cat)
+                e1, e2, mu_b = float(res_b.quantile[0]), float(res_b.quantile[1]), float(f.event_count)
+            except Exception as e:
+                run.oracle_failure(c, f"after in-place changes to returned arrays: exception {type(e).__name__}: {e}")
+                return
+            if not ((e1, e2) == (d1, d2) and _close(mu_b, mu_ref, 1e-12, 2e-12 * base_total if dated else 0.0)):
+                run.oracle_failure(c, f"the caller modified arrays RETURNED by the forecast / result in place ({case['alias']}); the "
+                                      f"N-test then gives {e1!r}, {e2!r} (total {mu_b!r}) instead of {d1!r}, {d2!r} (total {mu_ref!r})")
+                return
     if not numpy.array_equal(snapshot, data):
-        run.oracle_failure(case, "the number test / scale changed the stored rates of the forecast")
+        run.oracle_failure(case, "the number test / scale (or an in-place change of an array the forecast RETURNED) changed the "
+                                 "rate array handed to the constructor")
+    # ALIASING OF CALLER-OWNED INPUT: the catalog's rows are bit-for-bit what they were (unless the case filtered it)
+    if cat_bytes is not None and not (case.get("obs_filter") or case.get("empty")):
+        try:
+            now = cat.catalog.tobytes()
+        except Exception:
+            now = None
+        if now != cat_bytes:
+            run.oracle_failure(case, "the rows of the observed catalog were changed by the number tests")
 
 
 
@@ -1235,7 +1336,7 @@ def _big_grid_case(run, drv, pending):
 
 
 # ----------------------------------------------------------------------------- sessions on shared objects
-SESSION_OPS = ["scale", "scale", "ntest", "ntest", "copy_scale", "paired_t", "w_test", "binary_t", "target_rates", "spatial_counts",
+SESSION_OPS = ["scale", "scale", "ntest", "ntest", "copy_scale", "poke", "poke", "paired_t", "w_test", "binary_t", "target_rates", "spatial_counts",
                "magnitude_counts", "cl_test", "cat_filter", "event_count"]
 
 
@@ -1253,6 +1354,8 @@ def _gen_session(rng):
                        else rng.choice([0.5, 2.0, 1, 3, repr(1 / 365.25), repr(10 ** rng.uniform(-2, 2))]))
         if op == "copy_scale":
             st["v"] = rng.choice([0.5, 2.0, 3, repr(10 ** rng.uniform(-1, 1))])
+        if op == "poke":
+            st["mode"] = rng.choice(POKES)
         if op == "cat_filter":
             st["cut"] = rng.choice([4.5, 4.25, 5.0])
         steps.append(st)
@@ -1351,6 +1454,10 @@ def _session_case(run, drv, pending, case):
                     v = _factor(st["v"], data.shape)
                     fs[k].scale(v)
                     factors[k] = v
+                elif op == "poke":
+                    _poke_returned(run, fs[k], pe.number_test(fs[k], cat), st["mode"])
+                    tr = fs[k].target_event_rates(cat, scale=bool(i % 2))
+                    _poke(tr[0], st["mode"])
                 elif op == "ntest":
                     pe.number_test(fs[k], cat)
                 elif op == "paired_t" and n >= 2:
